@@ -68,6 +68,17 @@ impl VarInt {
     pub const fn into_inner(self) -> (r: u64) ensures r == self.0 { self.0 }
     #[verifier::external_body] pub const fn size(self) -> (r: usize) requires self.0 < 0x4000_0000_0000_0000 ensures r == vsize(self.0) { unimplemented!() }
 }
+impl vstd::std_specs::cmp::PartialOrdSpecImpl for VarInt {
+    open spec fn obeys_partial_cmp_spec() -> bool { true }
+    open spec fn partial_cmp_spec(&self, o: &VarInt) -> Option<core::cmp::Ordering> {
+        if self.0 < o.0 { Some(core::cmp::Ordering::Less) } else if self.0 == o.0 { Some(core::cmp::Ordering::Equal) } else { Some(core::cmp::Ordering::Greater) }
+    }
+}
+impl PartialOrd for VarInt {
+    fn partial_cmp(&self, o: &VarInt) -> Option<core::cmp::Ordering> {
+        if self.0 < o.0 { Some(core::cmp::Ordering::Less) } else if self.0 == o.0 { Some(core::cmp::Ordering::Equal) } else { Some(core::cmp::Ordering::Greater) }
+    }
+}
 impl From<u32> for VarInt { fn from(x: u32) -> (r: VarInt) ensures r.0 == x { VarInt(x as u64) } }
 impl vstd::std_specs::convert::FromSpecImpl<u32> for VarInt { open spec fn obeys_from_spec() -> bool { true } open spec fn from_spec(v: u32) -> VarInt { VarInt(v as u64) } }
 impl From<VarInt> for u64 { fn from(x: VarInt) -> (r: u64) ensures r == x.0 { x.0 } }
@@ -128,6 +139,8 @@ impl Send {
     { unimplemented!() }
     /// the answer of Send::ack: the FIN and every byte of the stream are acknowledged once this frame is (unit send_stream states it exactly)
     pub uninterp spec fn ack_done(&self, frame: frame::StreamMeta) -> bool;
+    /// `self.pending.offset()`: how much the application has written; never beyond the peer's stream limit, which is a varint
+    #[verifier::external_body] pub fn offset(&self) -> (r: u64) ensures r == self.pending.end() { unimplemented!() }
     /// `pending.has_unsent_data() || fin_pending`
     #[verifier::external_body] pub fn is_pending(&self) -> (r: bool) { unimplemented!() }
     /// clauses of Send::increase_max_data proved on the real function in unit send_stream
@@ -140,7 +153,49 @@ pub struct ClosedStream { pub _private: () }
 pub trait BytesSource { }
 pub struct Written { pub bytes: usize, pub chunks: usize }
 pub enum WriteError { Blocked, Stopped(VarInt), ClosedStream }
-pub struct Retransmits { pub reset_stream: Vec<(super::code::StreamId, VarInt)>, pub stop_sending: Vec<frame::StopSending>, pub max_data: bool }
+pub struct Retransmits { pub reset_stream: Vec<(super::code::StreamId, VarInt)>, pub stop_sending: Vec<frame::StopSending>, pub max_data: bool,
+    pub max_stream_id: [bool; 2], pub streams_blocked: [bool; 2], pub max_stream_data: IdSet }
+/// FxHashSet<StreamId> as far as write_control_frames uses it
+#[verifier::external_body] pub struct IdSet { x: u8 }
+impl View for IdSet { type V = Set<super::code::StreamId>; uninterp spec fn view(&self) -> Set<super::code::StreamId>; }
+impl IdSet {
+    /// `set.iter().next()` with the `Some(&id)` pattern: some element of the set, if it has one
+    #[verifier::external_body] pub fn pick(&self) -> (r: Option<super::code::StreamId>) ensures match r { Some(x) => self@.contains(x), None => self@.len() == 0 } { unimplemented!() }
+    #[verifier::external_body] pub fn remove(&mut self, x: &super::code::StreamId) -> (r: bool) ensures final(self)@ == old(self)@.remove(*x) { unimplemented!() }
+    #[verifier::external_body] pub fn insert(&mut self, x: super::code::StreamId) -> (r: bool) ensures final(self)@ == old(self)@.insert(x) { unimplemented!() }
+}
+/// ThinRetransmits: lazily allocated Retransmits of the packet being built (what has to be sent again if the packet is lost)
+#[verifier::external_body] pub struct ThinRetransmits { x: u8 }
+impl ThinRetransmits { #[verifier::external_body] pub fn get_or_create(&mut self) -> (r: &mut Retransmits) { unimplemented!() } }
+/// FrameStats: statistics counters (u64); `stats.x += 1` is routed through `bump` -- counter overflow is not modelled
+#[verifier::external_body] pub struct FrameStats { x: u8 }
+impl FrameStats { #[verifier::external_body] pub fn bump(&mut self) { unimplemented!() } }
+/// `VarInt::try_from(x)`
+pub fn varint_try_from(x: u64) -> (r: Result<VarInt, ()>) ensures match r { Ok(v) => v.0 == x && x < 0x4000_0000_0000_0000, Err(_) => x >= 0x4000_0000_0000_0000 }
+{ if x < 0x4000_0000_0000_0000 { Ok(VarInt(x)) } else { Err(()) } }
+pub assume_specification<T, E> [Result::<T, E>::unwrap_or] (r: Result<T, E>, d: T) -> (v: T) ensures v == (match r { Ok(x) => x, Err(_) => d });
+/// what `buf.write(x)` / `buf.write_var(x)` append: a varint, VarInt::size bytes (unit frame_codec proves the encoders against their images)
+pub trait Enc { spec fn enc_len(&self) -> usize; }
+impl Enc for VarInt { open spec fn enc_len(&self) -> usize { vsize(self.0) } }
+impl Enc for super::code::StreamId { open spec fn enc_len(&self) -> usize { vsize(self.0) } }
+impl Enc for frame::FrameType { open spec fn enc_len(&self) -> usize { vsize(self.0) } }
+pub trait BufMutExt { fn write<U: Enc>(&mut self, x: U); fn write_var(&mut self, x: u64) requires x < 0x4000_0000_0000_0000; }
+impl BufMutExt for Vec<u8> {
+    #[verifier::external_body] fn write<U: Enc>(&mut self, x: U) ensures final(self)@.len() == old(self)@.len() + x.enc_len(), final(self)@.take(old(self)@.len() as int) == old(self)@ { unimplemented!() }
+    /// the real body is `VarInt::from_u64(x).unwrap().encode(self)`: panics for x >= 2^62
+    #[verifier::external_body] fn write_var(&mut self, x: u64) ensures final(self)@.len() == old(self)@.len() + vsize(x), final(self)@.take(old(self)@.len() as int) == old(self)@ { unimplemented!() }
+}
+/// `self.recv.get_mut(&id).and_then(|s| s.as_mut()).and_then(|s| s.as_open_recv_mut())`: the receive half, if it exists and has been materialised
+#[verifier::external_body]
+pub fn recv_open<'a>(m: &'a mut FxHashMap<super::code::StreamId, Option<StreamRecv>>, id: super::code::StreamId) -> (r: Option<&'a mut Recv>)
+    ensures match r {
+        Some(rs) => rs.wf_spec() && (forall|w: u64| #[trigger] recv_headroom(*old(m), w) ==> rs.assembler.br + w < 0x4000_0000_0000_0000)
+            && (final(rs).assembler.br == rs.assembler.br ==> forall|w: u64| #[trigger] recv_headroom(*final(m), w) == recv_headroom(*old(m), w)),
+        None => *final(m) == *old(m),
+    }
+{ unimplemented!() }
+/// every materialised receive half has bytes_read + w below 2^62 (so that the MAX_STREAM_DATA value fits a varint)
+pub uninterp spec fn recv_headroom(m: FxHashMap<super::code::StreamId, Option<StreamRecv>>, w: u64) -> bool;
 /// what the map holds for `id` once a lazily created Send has been materialised (None: no such stream)
 pub uninterp spec fn send_abs(m: FxHashMap<super::code::StreamId, Option<Box<Send>>>, id: super::code::StreamId) -> Option<Send>;
 /// `self.state.send.get_mut(&self.id).map(get_or_insert_send(max_send_data))`
@@ -247,6 +302,13 @@ impl View for Bytes { type V = Seq<u8>; uninterp spec fn view(&self) -> Seq<u8>;
 impl Bytes { #[verifier::external_body] pub fn len(&self) -> (r: usize) ensures r == self@.len() { unimplemented!() } }
 impl Recv {
     #[verifier::external_body] pub fn is_receiving(&self) -> (r: bool) ensures r == !self.reset { unimplemented!() }
+    #[verifier::external_body] pub fn can_send_flow_control(&self) -> (r: bool) { unimplemented!() }
+    /// clauses of Recv::max_stream_data / record_sent_max_stream_data proved on the real functions in unit recv
+    #[verifier::external_body] pub fn max_stream_data(&mut self, stream_receive_window: u64) -> (r: (u64, super::code::ShouldTransmit))
+        requires old(self).wf_spec(), stream_receive_window < 0x4000_0000_0000_0000
+        ensures *final(self) == *old(self), r.0 == old(self).assembler.br + stream_receive_window
+    { unimplemented!() }
+    #[verifier::external_body] pub fn record_sent_max_stream_data(&mut self, sent_value: u64) ensures final(self).wf_spec() == old(self).wf_spec(), final(self).assembler.br == old(self).assembler.br { unimplemented!() }
     /// the stream's final size once a FIN or a RESET_STREAM has fixed it (a reset always fixes it)
     pub uninterp spec fn final_size(&self) -> Option<u64>;
     #[verifier::external_body] pub fn final_offset(&self) -> (r: Option<u64>) ensures r == self.final_size(), self.reset ==> r.is_some() { unimplemented!() }
@@ -285,6 +347,20 @@ pub mod frame { use super::*; pub struct Stream { pub id: super::super::code::St
 impl Stream { pub const SIZE_BOUND: usize = 1 + 8 + 8 + 8; }
 pub struct StreamMeta { pub id: super::super::code::StreamId, pub offsets: Range<u64>, pub fin: bool }
 pub struct StopSending { pub id: super::super::code::StreamId, pub error_code: VarInt }
+#[derive(Copy, Clone, PartialEq, Eq)] pub struct FrameType(pub u64);
+impl FrameType {
+//@ expand-consts quinn-proto/src/frame.rs :: macro frame_types :: pub const {name}: FrameType = FrameType({val});
+}
+impl StopSending {
+    pub const SIZE_BOUND: usize = 1 + 8 + 8;
+    /// STOP_SENDING: type, stream id, error code (unit frame_codec proves the real encoder against its image)
+    #[verifier::external_body] pub fn encode(&self, out: &mut Vec<u8>) ensures final(out)@.len() <= old(out)@.len() + 17, final(out)@.len() >= old(out)@.len(), final(out)@.take(old(out)@.len() as int) == old(out)@ { unimplemented!() }
+}
+impl ResetStream {
+    pub const SIZE_BOUND: usize = 1 + 8 + 8 + 8;
+    /// RESET_STREAM: type, stream id, error code, final size
+    #[verifier::external_body] pub fn encode(&self, out: &mut Vec<u8>) ensures final(out)@.len() <= old(out)@.len() + 25, final(out)@.len() >= old(out)@.len(), final(out)@.take(old(out)@.len() as int) == old(out)@ { unimplemented!() }
+}
 /// wire image of the frame header (type byte, stream id, offset unless 0, length if asked for): proved for the real encoder in unit frame_codec
 pub uninterp spec fn meta_image(m: StreamMeta, length: bool) -> Seq<u8>;
 impl StreamMeta {
@@ -540,6 +616,74 @@ impl StreamsState {
                         && this.receive_window_shrink_debt == 0 && this.stream_receive_window == stream_receive_window.0,
                     this.max_remote[0] == max_remote_bi.0 && this.max_remote[1] == max_remote_uni.0, max_remote_uni.0 <= 0x1000_0000_0000_0000, max_remote_bi.0 <= 0x1000_0000_0000_0000,
                     this.allocated_remote_count == this.max_remote && this.max_concurrent_remote_count == this.max_remote,
+//@ end
+//@ extract quinn-proto/src/connection/streams/state.rs :: impl StreamsState::fn write_control_frames
+//@ props C13 C03
+//@ vis pub
+//@ replace self.send.get_mut(&id).and_then(|s| s.as_mut()) => send_get(&mut self.send, id)
+//@ replace ws:self .recv .get_mut(&id) .and_then(|s| s.as_mut()) .and_then(|s| s.as_open_recv_mut()) => recv_open(&mut self.recv, id)
+//@ replace let Some(&id) = pending.max_stream_data.iter().next() else { => let Some(id) = pending.max_stream_data.pick() else {
+//@ replace VarInt::try_from(stream.offset()).expect("impossibly large offset") => varint_try_from(stream.offset()).expect("impossibly large offset")
+//@ replace VarInt::try_from(self.local_max_data).unwrap_or(VarInt::MAX) => varint_try_from(self.local_max_data).unwrap_or(VarInt::MAX)
+//@ replace stats.reset_stream += 1 => stats.bump()
+//@ replace stats.stop_sending += 1 => stats.bump()
+//@ replace stats.max_data += 1 => stats.bump()
+//@ replace stats.max_stream_data += 1 => stats.bump()
+//@ replace stats.max_streams_uni += 1 => stats.bump()
+//@ replace stats.max_streams_bidi += 1 => stats.bump()
+//@ replace stats.streams_blocked_uni += 1 => stats.bump()
+//@ replace stats.streams_blocked_bidi += 1 => stats.bump()
+//@ replace Dir::iter() => dir_iter()
+//@ loop 0
+            invariant
+                self.stream_receive_window == old(self).stream_receive_window, self.max_remote == old(self).max_remote, self.max == old(self).max, max_size <= 0x7fff_ffff_ffff_0000,
+                self.max_remote[0] <= 0x1000_0000_0000_0000, self.max_remote[1] <= 0x1000_0000_0000_0000, self.max[0] <= 0x1000_0000_0000_0000, self.max[1] <= 0x1000_0000_0000_0000,
+                forall|i: StreamId| (#[trigger] send_abs(self.send, i)) matches Some(st) ==> st.pending.end() < 0x4000_0000_0000_0000,
+                recv_headroom(self.recv, self.stream_receive_window),
+                buf@.len() <= max_size, buf@.len() >= old(buf)@.len(), buf@.take(old(buf)@.len() as int) == old(buf)@,
+            decreases pending.reset_stream@.len()
+//@ loop 1
+            invariant
+                self.stream_receive_window == old(self).stream_receive_window, self.max_remote == old(self).max_remote, self.max == old(self).max, max_size <= 0x7fff_ffff_ffff_0000,
+                self.max_remote[0] <= 0x1000_0000_0000_0000, self.max_remote[1] <= 0x1000_0000_0000_0000, self.max[0] <= 0x1000_0000_0000_0000, self.max[1] <= 0x1000_0000_0000_0000,
+                forall|i: StreamId| (#[trigger] send_abs(self.send, i)) matches Some(st) ==> st.pending.end() < 0x4000_0000_0000_0000,
+                recv_headroom(self.recv, self.stream_receive_window),
+                buf@.len() <= max_size, buf@.len() >= old(buf)@.len(), buf@.take(old(buf)@.len() as int) == old(buf)@,
+            decreases pending.stop_sending@.len()
+//@ loop 2
+            invariant
+                self.stream_receive_window == old(self).stream_receive_window, self.max_remote == old(self).max_remote, self.max == old(self).max, max_size <= 0x7fff_ffff_ffff_0000,
+                self.max_remote[0] <= 0x1000_0000_0000_0000, self.max_remote[1] <= 0x1000_0000_0000_0000, self.max[0] <= 0x1000_0000_0000_0000, self.max[1] <= 0x1000_0000_0000_0000,
+                forall|i: StreamId| (#[trigger] send_abs(self.send, i)) matches Some(st) ==> st.pending.end() < 0x4000_0000_0000_0000,
+                recv_headroom(self.recv, self.stream_receive_window),
+                buf@.len() <= max_size, buf@.len() >= old(buf)@.len(), buf@.take(old(buf)@.len() as int) == old(buf)@,
+            decreases pending.max_stream_data@.len()
+//@ loop-iter 3 it3
+//@ loop 3
+            invariant
+                self.stream_receive_window == old(self).stream_receive_window, self.max_remote == old(self).max_remote, self.max == old(self).max, max_size <= 0x7fff_ffff_ffff_0000,
+                self.max_remote[0] <= 0x1000_0000_0000_0000, self.max_remote[1] <= 0x1000_0000_0000_0000, self.max[0] <= 0x1000_0000_0000_0000, self.max[1] <= 0x1000_0000_0000_0000,
+                forall|i: StreamId| (#[trigger] send_abs(self.send, i)) matches Some(st) ==> st.pending.end() < 0x4000_0000_0000_0000,
+                recv_headroom(self.recv, self.stream_receive_window),
+                buf@.len() <= max_size, buf@.len() >= old(buf)@.len(), buf@.take(old(buf)@.len() as int) == old(buf)@,
+//@ loop-iter 4 it4
+//@ loop 4
+            invariant
+                self.stream_receive_window == old(self).stream_receive_window, self.max_remote == old(self).max_remote, self.max == old(self).max, max_size <= 0x7fff_ffff_ffff_0000,
+                self.max_remote[0] <= 0x1000_0000_0000_0000, self.max_remote[1] <= 0x1000_0000_0000_0000, self.max[0] <= 0x1000_0000_0000_0000, self.max[1] <= 0x1000_0000_0000_0000,
+                forall|i: StreamId| (#[trigger] send_abs(self.send, i)) matches Some(st) ==> st.pending.end() < 0x4000_0000_0000_0000,
+                recv_headroom(self.recv, self.stream_receive_window),
+                buf@.len() <= max_size, buf@.len() >= old(buf)@.len(), buf@.take(old(buf)@.len() as int) == old(buf)@,
+//@ contract
+        requires old(buf)@.len() <= max_size, max_size <= 0x7fff_ffff_ffff_0000, recv_headroom(old(self).recv, old(self).stream_receive_window),
+            // history: every send buffer's end is below the peer's stream limit (a varint); stream counts are at most 2^60; the receive window is a varint
+            forall|id: StreamId| (#[trigger] send_abs(old(self).send, id)) matches Some(st) ==> st.pending.end() < 0x4000_0000_0000_0000,
+            old(self).stream_receive_window < 0x4000_0000_0000_0000,
+            old(self).max_remote[0] <= 0x1000_0000_0000_0000, old(self).max_remote[1] <= 0x1000_0000_0000_0000,
+            old(self).max[0] <= 0x1000_0000_0000_0000, old(self).max[1] <= 0x1000_0000_0000_0000,
+        ensures
+            // control frames never take the packet past the space it was given, and what was already in it is untouched
+            final(buf)@.len() <= max_size, final(buf)@.len() >= old(buf)@.len(), final(buf)@.take(old(buf)@.len() as int) == old(buf)@,
 //@ end
 //@ extract quinn-proto/src/connection/streams/state.rs :: impl StreamsState::fn write_stream_frames
 //@ props C01 C13 C10
